@@ -174,9 +174,10 @@ def check_formats(st, nbest, lang, formats, base, count=True, skip=()):
             try:
                 flat_text = render(copy.deepcopy(nbest[0]) if fmt == 'jigg_xml' else list(nbest[0]), fmt)
             except Exception as e:
-                flat_text = f'raised {e!r}'
+                flat_text = None          # a printer that refuses the flat form says so; only an answer that differs is judged
+                st.count('flat_call_forms_rejected')
             st.count('flat_call_forms')
-            if flat_text != text:
+            if flat_text is not None and flat_text != text:
                 bad(fmt, f'the flat call form to_string([tree, tree, ...]) differs from the nested one for the n-best list of one sentence: {flat_text[:120]!r} vs {text[:120]!r}', kind='call_form')
         try:
             if fmt in ('auto', 'auto_extended', 'ptb', 'ja', 'deriv'):
